@@ -217,6 +217,10 @@ impl WireEncode for StandardPath {
             return Err("curr_hop_field exceeds total number of hop fields".into());
         }
 
+        if self.current_hop_field as usize > StdPathMetaLayout::CURR_HOP_FIELD_RNG.max_uint() {
+            return Err("curr_hop_field does not fit the 6-bit CurrHF field".into());
+        }
+
         if self.current_info_field as usize >= self.info_field_count() {
             return Err("current_info_field exceeds total number of info fields".into());
         }
